@@ -144,17 +144,14 @@ func checkC15(c *Ctx) {
 				}
 			})
 			// closed edge returns a non-nil error
-			closedRet := false
-			for _, r := range returnsOf(fn) {
-				if edgeDominates(guardBlock, 1-openIdx, r.Block()) {
-					closedRet = true
-					if isNilConst(r.Results[len(r.Results)-1]) {
-						okGuard = false
-						why = "the not-open outcome returns a nil error"
-					}
+			closedRets := returnsFromEdge(guardBlock, 1-openIdx)
+			for _, ra := range closedRets {
+				if isNilConst(ra.st.resolve(ra.ret.Results[len(ra.ret.Results)-1])) {
+					okGuard = false
+					why = "the not-open outcome returns a nil error"
 				}
 			}
-			if !closedRet {
+			if len(closedRets) == 0 {
 				okGuard = false
 				why = "the not-open outcome does not return"
 			}
@@ -243,18 +240,23 @@ func checkC15(c *Ctx) {
 					whyB = "the append is not restricted to the 'fits' outcome of the length test: an oversize message is buffered"
 				}
 			}
-			refOK := false
-			for _, r := range returnsOf(fn) {
-				if edgeDominates(chk, overIdx, r.Block()) {
-					refOK = !isNilConst(r.Results[len(r.Results)-1])
-					// does the refusing path reset the buffer?
-					reset := false
-					instrsOf(fn, func(in ssa.Instruction) {
-						if call := bufCall(in, fBuf, "Reset", "Truncate"); call != nil && edgeDominates(chk, overIdx, call.Block()) && dominates(call, r) {
-							reset = true
-						}
-					})
-					refuseHasReset[fn] = reset
+			overRets := returnsFromEdge(chk, overIdx)
+			refOK := len(overRets) > 0
+			refuseHasReset[fn] = len(overRets) > 0
+			for _, ra := range overRets {
+				r := ra.ret
+				if isNilConst(ra.st.resolve(r.Results[len(r.Results)-1])) {
+					refOK = false
+				}
+				// does the refusing path reset the buffer?
+				reset := false
+				instrsOf(fn, func(in ssa.Instruction) {
+					if call := bufCall(in, fBuf, "Reset", "Truncate"); call != nil && edgeDominates(chk, overIdx, call.Block()) && dominates(call, r) {
+						reset = true
+					}
+				})
+				if !reset {
+					refuseHasReset[fn] = false
 				}
 			}
 			if !refOK {
